@@ -707,6 +707,26 @@ fn c12_long_pool(tier: Tier) -> Vec<(usize, u32, u32)> {
     v
 }
 
+
+/// merge_partition_list takes any iterator: the same list is handed over through adaptors whose size_hint is exact
+/// (slice iterator), has a lower bound of 0 (filter, skip_while, flat_map) or 1 (once + filtered rest)
+const ITER_KINDS: usize = 5;
+fn merge_via(kind: usize, l: &[&CharPartition]) -> CharPartition {
+    match kind % ITER_KINDS {
+        0 => merge_partition_list(l.iter().copied()),
+        1 => merge_partition_list(l.iter().copied().filter(|_| true)),
+        2 => merge_partition_list(l.iter().copied().skip_while(|_| false)),
+        3 => merge_partition_list(l.iter().flat_map(|p| std::iter::once(*p))),
+        _ => {
+            if l.is_empty() {
+                merge_partition_list(l.iter().copied())
+            } else {
+                merge_partition_list(std::iter::once(l[0]).chain(l[1..].iter().copied().filter(|_| true)))
+            }
+        }
+    }
+}
+
 fn c12_pair(n: usize, p1: &Part, p2: &Part) -> Option<String> {
     publish_case(|| json!({"kind": "pair", "line": n, "p1": p1, "p2": p2}));
     let us = units(n);
@@ -728,8 +748,9 @@ fn c12_list(n: usize, ps: &[Part]) -> Option<String> {
         let cps: Vec<CharPartition> = ps.iter().map(|p| build_push(&us, p)).collect();
         let refs: Vec<&Part> = ps.iter().collect();
         let idx: Vec<usize> = (0..ps.len()).collect();
-        for order in perms(&idx) {
-            let m = merge_partition_list(order.iter().map(|&k| &cps[k]));
+        for (oi, order) in perms(&idx).into_iter().enumerate() {
+            let l: Vec<&CharPartition> = order.iter().map(|&k| &cps[k]).collect();
+            let m = merge_via(oi + ps.len(), &l);
             if let Some(e) = check_merged(&us, n, &refs, &m, &format!("merge_partition_list in order {:?} of {:?}", order, ps.iter().map(|p| raw(&us, p)).collect::<Vec<_>>())) {
                 return Some(e);
             }
@@ -739,7 +760,7 @@ fn c12_list(n: usize, ps: &[Part]) -> Option<String> {
         for pos in 0..=ps.len() {
             let mut l: Vec<&CharPartition> = cps.iter().collect();
             l.insert(pos, &empty);
-            let m = merge_partition_list(l.into_iter());
+            let m = merge_via(pos + 1, &l);
             if let Some(e) = check_merged(&us, n, &refs, &m, "merge_partition_list with an empty partition inserted") {
                 return Some(e);
             }
@@ -759,8 +780,14 @@ fn c12_list_given(n: usize, ps: &[Part]) -> Option<String> {
     let r = guarded(|| {
         let cps: Vec<CharPartition> = ps.iter().map(|p| build_push(&us, p)).collect();
         let refs: Vec<&Part> = ps.iter().collect();
-        let m = merge_partition_list(cps.iter());
-        check_merged(&us, n, &refs, &m, &format!("merge_partition_list of {:?}", ps.iter().map(|p| raw(&us, p)).collect::<Vec<_>>()))
+        let l: Vec<&CharPartition> = cps.iter().collect();
+        for kind in 0..ITER_KINDS {
+            let m = merge_via(kind, &l);
+            if let Some(e) = check_merged(&us, n, &refs, &m, &format!("merge_partition_list (iterator adaptor {}) of {:?}", kind, ps.iter().map(|p| raw(&us, p)).collect::<Vec<_>>())) {
+                return Some(e);
+            }
+        }
+        None
     });
     match r {
         Ok(m) => m,
@@ -806,7 +833,7 @@ fn c12_run(ctx: &Ctx, batch: usize, nb: usize, rep: &mut Report) {
             rep.inc("evaluations");
             publish_case(|| json!({"kind": "list", "line": n, "parts": [p1, p2]}));
             let ok2 = guarded(|| {
-                let m = merge_partition_list([&cps[i], &cps[j]].into_iter());
+                let m = merge_via(i + j, &[&cps[i], &cps[j]]);
                 check_merged(&us, n, &[p1, p2], &m, "merge_partition_list").is_none()
             })
             .unwrap_or(false);
@@ -941,7 +968,7 @@ fn c12_meta(ctx: &Ctx) -> Meta {
     let np = enum_parts(n).len();
     Meta {
         level: "exploration",
-        rule: format!("all {} x {} ordered pairs of partitions over a compressed line of {} positions; expected result = the maximal runs of positions with equal (class in p1, class in p2) other than (complement, complement), complement = intersection of the complements with a witness inside it; merge with the empty partition on either side; every ordered pair also as a two-element list through merge_partition_list; lists of three partitions in all 6 orders and with an empty partition inserted at every place; all lists of four (thorough: and five) partitions over a 3-position line; long partitions (9-257 intervals in several adjacency patterns and shifts) merged pairwise and in folds of three, expected result from a sweep over all end points; run in the release and dev profiles; non-trivial = ordered pairs of two different non-empty partitions", np, np, n),
+        rule: format!("all {} x {} ordered pairs of partitions over a compressed line of {} positions; expected result = the maximal runs of positions with equal (class in p1, class in p2) other than (complement, complement), complement = intersection of the complements with a witness inside it; merge with the empty partition on either side; every ordered pair also as a two-element list through merge_partition_list, the list handed over through iterator adaptors with exact and with inexact size hints (slice, filter, skip_while, flat_map, once+chain); lists of three partitions in all 6 orders and with an empty partition inserted at every place; all lists of four (thorough: and five) partitions over a 3-position line; long partitions (9-257 intervals in several adjacency patterns and shifts) merged pairwise and in folds of three, expected result from a sweep over all end points; run in the release and dev profiles; non-trivial = ordered pairs of two different non-empty partitions", np, np, n),
         assumptions: vec!["'same class exactly when' is read for interval partitions: a class other than the complement is an interval, so the result must be the coarsest refinement whose classes are intervals (maximal runs), as the statement's third clause says".into()],
         exhaustive: true,
         space: format!("compressed line {:?}", units(n)),
